@@ -133,7 +133,14 @@ class WorldB:
             self.hist = History(self.mdib, self.s, front=True)
             if start:
                 self.provider.start_all(start_rtsample_loop=False, periodic_reports_interval=cfg.get('periodic'))
+                self.boot()
         return self.provider
+
+    def boot(self):
+        """let every freshly started library thread execute its first statements (the housekeeping thread sets its own
+        run flag when it starts: a stop_all() that comes before that would wait for it forever - observed, outside the
+        listed properties)"""
+        self.s.sleep(0.001)
 
     # ------------------------------------------------------------------ consumer
     def start_consumer(self, idx=0, ssl_container=None, init_mdib=True, force_ssl=False, **kw):
@@ -178,6 +185,24 @@ class WorldB:
             return any(not self.consumer_idle(c) for c in self.consumers)
         self.s.idle_hooks = [pending]
         return self.s.settle(max_virtual)
+
+    def stop_provider_guarded(self, send_end=True, max_virtual=120.0):
+        """SdcProvider.stop_all() in its own task with a virtual-time watchdog: returns (finished?, exception)"""
+        import threading
+        out = {}
+
+        def run():
+            try:
+                with node(PROVIDER_IP):
+                    self.provider.stop_all(send_subscription_end=send_end)
+            except Exception as ex:  # noqa: BLE001
+                out['exc'] = ex
+            out['done'] = True
+
+        t = threading.Thread(target=run, name='stop_all')
+        t.start()
+        t.join(max_virtual)
+        return bool(out.get('done')), out.get('exc')
 
     def stop(self):
         for c in self.consumers:
